@@ -4,7 +4,7 @@
    DuplicateIDs) by DefaultDeduplicateFilter.Filter run on the blocks l. *)
 From Coq Require Import ZArith List Bool Permutation.
 Import ListNotations.
-From Verif Require Import Lib.Corr Model.C31 Proofs.C31.
+From Verif Require Import Lib.Corr Gen.C31 Model.C31 Proofs.C31.
 Open Scope Z_scope.
 
 (* A hidden block has a KEPT block of the SAME compaction group that was built
@@ -46,6 +46,22 @@ Print Assumptions C31_model_pred.
 Theorem C31_model_view : forall l, model_view l = (map bid (kept l), dups l).
 Proof. exact model_view_spec. Qed.
 Print Assumptions C31_model_view.
+
+(* Statelessness across syncs: for a history of Filter calls on one long-lived filter
+   instance, the outcome of the n-th call is the stateless outcome on the n-th block set,
+   whatever the instance remembered (its field duplicateIDs) before — so every clause
+   above holds after every sync, also when covering blocks disappear between syncs. *)
+Theorem C31_history_stateless : forall prev ls n l, nth_error ls n = Some l ->
+  nth_error (run_history prev ls) n = Some (map bid (kept l), dups l).
+Proof. exact history_nth. Qed.
+Print Assumptions C31_history_stateless.
+
+(* Source fact (regenerated from fetcher.go): Filter and filterGroup use the receiver only
+   for concurrency, the mutex, filterGroup and the ASSIGNMENT of duplicateIDs; they read
+   nothing a previous call wrote. *)
+Theorem C31_filter_reads_no_previous_result : filter_reads_no_previous_result = true.
+Proof. exact filter_stateless_fact. Qed.
+Print Assumptions C31_filter_reads_no_previous_result.
 
 (* Non-vacuity: two replicas' level-1 blocks 1,2,3 and their compactions:
    block 10 = {1,2,3} hides 11 = {1,2} and the sources; 12 = {3,4} stays (4 is
